@@ -391,7 +391,7 @@ impl StRunner {
             let (dp, wp) = self.backends[bk].files();
             let sn = snaps.clone();
             agdb::verif::set_fs_hook(Some(Box::new(move |file, op, pos, bytes| {
-                if op == "read_locked" { return; }
+                if op == "read_locked" || op == "read_seeked" { return; }
                 sn.borrow_mut().push((std::fs::read(&dp).unwrap_or_default(), std::fs::read(&wp).unwrap_or_default(), file, op, pos, bytes.to_vec()));
             })));
         }
